@@ -19,7 +19,8 @@ def run(tier):
     mt = {"flow": 4, "scope": 4, "capture": 4, "global": 5} if tier == "quick" else {"flow": 5, "scope": 5, "capture": 5, "global": 6}
     n = 0
     for theme in ("flow", "scope", "capture", "global"):
-        n += render_check.run_theme(C, theme, mt[theme], traced=(tier == "quick"))
+        # (the assignment theme repeats constructs whose VM steps the other three themes already validate: exact text only)
+        n += render_check.run_theme(C, theme, mt[theme], traced=(tier == "quick" and theme != "global"))
     if tier == "thorough":
         for theme in ("flow", "scope", "capture"):
             n += render_check.run_theme(C, theme, 9, traced=True, simulate=3000, depth=14, workers=1, tag="render-sim-" + theme)
